@@ -189,6 +189,33 @@ func (w *World) Deliver(raw []byte, stream bool) (Outcome, error) {
 	return w.capture(evIdx, tapIdx, reply)
 }
 
+// DeliverSplit delivers a stream message in two parts: raw[:split], then - once the node has consumed that and waits for
+// more - mid() runs (a keyring operation, say), then the rest.
+func (w *World) DeliverSplit(raw []byte, split int, mid func()) (Outcome, error) {
+	p := w.P
+	evIdx := p.Rec.Len()
+	tapIdx := p.TapLen()
+	var reply []byte
+	c, err := w.Att.Dial(p.Addr(), time.Second)
+	if err == nil {
+		if split > len(raw) {
+			split = len(raw)
+		}
+		_, _ = c.Write(raw[:split])
+		p.Settle()
+		mid()
+		p.Settle()
+		_, _ = c.Write(raw[split:])
+		c.CloseWrite()
+		reply, _ = c.ReadAllFor(5 * time.Second)
+		c.Close()
+	}
+	p.Settle()
+	time.Sleep(700 * time.Millisecond)
+	p.Settle()
+	return w.capture(evIdx, tapIdx, reply)
+}
+
 func (w *World) capture(evIdx, tapIdx int, reply []byte) (Outcome, error) {
 	p := w.P
 	var o Outcome
